@@ -234,6 +234,12 @@ func (n *Namespace) add(c *serverConn, auth json.RawMessage) (*serverSocket, err
 }
 
 func (n *Namespace) doConnect(socket *serverSocket) error {
+	// From the moment the socket can be found (in the namespace, on its connection) until it
+	// is connected, `connectedMu` is held: a close that finds the socket in this window (server
+	// shutdown, the connection going away) waits in `Connected()` for the admission to complete
+	// and then closes a connected socket. Without this, such a close saw "not connected", did
+	// nothing, and used up the socket's one and only close.
+	socket.connectedMu.Lock()
 	n.sockets.set(socket)
 
 	// Register the socket on its connection before the CONNECT packet is sent (in onConnect):
@@ -247,6 +253,7 @@ func (n *Namespace) doConnect(socket *serverSocket) error {
 	// violations (such as a disconnection before the connection
 	// logic is complete)
 	socket.onConnect()
+	socket.connectedMu.Unlock()
 
 	go func() {
 		close(socket.connectionSlot.started)
